@@ -360,7 +360,22 @@ def check_node(t, ty, S, path):
             b_kind = "phantom_type_arg" if phantom else kind
             return (f"{root}.{b_kind}",
                     f"[{path}] `{ann(t)}`: Guppy copyable={oc} but {nm} = {b}", False)
-    return ("", "", True) if phantom else None
+    if phantom:
+        return ("", "", True)
+    # requires_drop (the predicate insert_drops uses on HUGR types) must single out exactly the
+    # droppable-but-not-copyable types; types that are not droppable are never dropped (unspecified)
+    if oc or od:
+        from guppylang_internals.compiler.core import requires_drop
+
+        for nm, c in _CTXS:
+            try:
+                rd = requires_drop(ty.to_hugr(c))
+            except Exception as e:  # noqa: BLE001
+                return (f"requires_drop.raises.{type(e).__name__}.{kind}", f"[{path}] `{ann(t)}` {nm}: {e!r}", False)
+            if rd != (not oc):
+                return (f"requires_drop.{kind}", f"[{path}] `{ann(t)}` (copyable={oc}, droppable={od}): "
+                        f"requires_drop(to_hugr[{nm}]) = {rd}", False)
+    return None
 
 
 def eval_type(M, tree):
@@ -525,6 +540,20 @@ def make_strategies():
                                               ["opt", v]]))
                     mode = draw(st.sampled_from(["recv_unused"] * 3 + (
                         ["recv_returned", "recv_sunk", "recv_borrowed"] if affine else [])))
+                if not cond and draw(st.integers(0, 3)) == 0:
+                    # a *packed* value (one wire): an affine part next to function-typed, generic or
+                    # scalar components in drawn order, under an Option / inside a nested tuple /
+                    # as a discarded call result
+                    aff = t if (affine and depth(t) < MAX_DEPTH - 1) else ["array", ["b", "int"], 2]
+                    others = [draw(st.sampled_from([["fn", [], ["b", "None"]], ["fn", [[["b", "int"], False]], ["b", "int"]],
+                                                    ["v", "TB0"], ["v", "TB1"], ["b", "int"], ["b", "float"],
+                                                    ["array", ["b", "bool"], 1]]))
+                              for _ in range(draw(st.integers(1, 2)))]
+                    parts = draw(st.permutations([aff] + others))
+                    inner = ["tuple", list(parts)]
+                    t = draw(st.sampled_from([["opt", inner], ["tuple", [inner, ["b", "int"]]], inner,
+                                              ["opt", ["opt", inner]], ["tuple", [["b", "int"], ["opt", inner]]]]))
+                    mode = draw(st.sampled_from(["recv_unused", "recv_unused", "make_stmt", "make_unused", "recv_sunk"]))
                 slots.append({"ty": t, "mode": mode})
             return mi, slots
         return strat()
